@@ -21,6 +21,9 @@ def run(tier, seed):
     rng = random.Random(seed)
     X.mc_stage(ctx, ["sage_a"] if quick else ["sage_a", "sage_b", "sage_c", "sage_d", "sage_e", "sage_o", "sage_def"],
                "ContributionDefinition ChainEndsAtModelLoss RunningStatistic VarNonNegative LockStep")
+    if not quick:
+        X.abs_stage(ctx, ["sage_a", "sage_w", "sage_p", "sage_def"])
+        X.refine_stage(ctx, ["sage_a", "sage_o", "sage_def"])
     X.replay_stage(ctx, ["sage_q"] if quick else ["sage_q", "sage_a", "sage_prod", "sage_d3", "sage_o", "sage_def"], wanted_replay,
                    limit=None if quick else 3000, rng=rng)
     n = 120 if quick else 1500
